@@ -59,6 +59,7 @@ class Engine(ExprMixin, StmtMixin, CallMixin):
         self.called = set()
         self.tracked_refs = set()
         self.digit_facts = []
+        self.pending_facts = []
         self.loop_nodes = sorted([n for n in ast.walk(self.fdef) if isinstance(n, (ast.For, ast.While))],
                                  key=lambda n: (n.lineno, n.col_offset))
         self.is_generator = contains_yield(self.fdef.body) and spec.yields is not None
@@ -346,6 +347,9 @@ class Engine(ExprMixin, StmtMixin, CallMixin):
                 continue
             st.loc[nm] = OpaqueV(z3.Const(nm, USort), nm)
             self.init_vals[nm] = st.loc[nm]
+        for nm, sort in spec.hints.get('locals', {}).items():
+            v, st = self.fresh_of_sort(sort, nm, st)
+            st.loc[nm] = v
         for r in list(self.init_vals.values()):
             if isinstance(r, RefV):
                 self.tracked_refs.add(r.id)
@@ -389,9 +393,9 @@ class Engine(ExprMixin, StmtMixin, CallMixin):
                 raise Unsupported('break/continue escaped the function body')
             self.paths.append((s1, out))
             self.finish_path(s1, out)
-        unused = self.env_keys - self.env_used
-        if unused:
-            raise Unsupported('stale contract: env entries never read by the code: %s' % sorted(unused))
+        # an env entry the code (no longer) reads: the contract is stale for that path; reported as
+        # undecided by the driver, after the obligations that could be generated
+        self.stale_env = sorted(self.env_keys - self.env_used)
         return self
 
     def finish_path(self, st, out):
